@@ -131,21 +131,30 @@ func registerTime(reg func(string, intercept), nop intercept) {
 		e.Yield()
 		return nil
 	})
-	mkTimerChan := func(e *Engine) *ChanObj {
+	mkTimerChan := func(e *Engine, d *Term, periodic bool) *ChanObj {
 		pkg := e.prog.ImportedPackage("time")
 		tt := pkg.Type("Time").Object().Type()
 		n := 1
 		if v, ok := e.cfg.Bounds["ticks"]; ok {
 			n = v
 		}
-		return &ChanObj{Cap: 1, ElemT: tt, Timer: true, Fires: n}
+		c := &ChanObj{Cap: 1, ElemT: tt, Timer: true, Fires: n}
+		if e.clockPinned && e.now != nil && d != nil {
+			c.Next = e.subst(e.tb.Bin(OpAdd, e.now, d))
+			if periodic {
+				c.Period = d
+			}
+		}
+		return c
 	}
-	reg("time.After time.Tick", func(e *Engine, fr *frame, a []Value) Value { return mkTimerChan(e) })
+	reg("time.After time.Tick", func(e *Engine, fr *frame, a []Value) Value {
+		return mkTimerChan(e, a[0].(*Term), fr.fn.Name() == "Tick")
+	})
 	reg("time.NewTimer time.NewTicker", func(e *Engine, fr *frame, a []Value) Value {
 		// struct { C <-chan Time; ... }: allocate zero struct and set field 0
 		rt := mustDeref(fr.fn.Signature.Results().At(0).Type())
 		sb := e.zero(rt).(*Backing)
-		sb.E[0] = mkTimerChan(e)
+		sb.E[0] = mkTimerChan(e, a[0].(*Term), fr.fn.Name() == "NewTicker")
 		return Ptr{B: &Backing{E: []Value{sb}}}
 	})
 	reg("(*time.Timer).Stop (*time.Timer).Reset", func(e *Engine, fr *frame, a []Value) Value {
